@@ -7,12 +7,14 @@ OUT=/verif/seeded/$ID
 mkdir -p "$OUT"
 cd "$MUT" || exit 2
 export PYTHONPATH="$MUT:/verif/.pydeps:/verif/harness/shims" NUMBA_BOUNDSCHECK=1 PYTHONDONTWRITEBYTECODE=1
-git diff -- abacusnbody > "$OUT/patch.diff"
+# the agent's patch.diff is the deliverable: start from a pristine tree and apply exactly that
+# (never `git stash`: the stash is shared by all worktrees of the repository)
+cp patch.diff "$OUT/patch.diff"
 cp demo.py "$OUT/demo.py"
-/venv/bin/python demo.py > "$OUT/demo_with_change.log" 2>&1; RC_WITH=$?
-git stash -q -- abacusnbody
+git checkout -q -- abacusnbody
 /venv/bin/python demo.py > "$OUT/demo_without_change.log" 2>&1; RC_WITHOUT=$?
-git stash pop -q
+if ! git apply "$OUT/patch.diff"; then echo "patch.diff does not apply to a pristine tree"; exit 3; fi
+/venv/bin/python demo.py > "$OUT/demo_with_change.log" 2>&1; RC_WITH=$?
 unset NUMBA_BOUNDSCHECK
 TESTS=$(/venv/bin/python -m pytest -q -p no:cacheprovider --timeout=900 tests/test_util.py tests/test_tsc.py 2>&1 | tail -1)
 RESULTS=""
